@@ -125,6 +125,7 @@ func xferScenario(spec *xferSpec, res *xferResult) *Scenario {
 				m.W.delay = [2]time.Duration{spec.Delay, spec.Delay}
 			}
 			m.W.faults = spec.Faults
+			m.W.onQuiescent = m.invariantsAll
 			if spec.FaultDir != nil {
 				m.W.faultDir = *spec.FaultDir
 			}
